@@ -50,8 +50,8 @@ How the model reads the tables:
   guard chain (err conditions included).
 * `checksumSum`: per source, `filepath.Rel(t.Dir, f)` → `filepath.ToSlash` → hash, then the
   content (`nameOf`, `stream`); `fingerOrder_checksumName_ok` pins the arguments.  Fix F8B: a SECOND
-  hasher gets, per source, the length of the name and the number of content bytes copied, 8 bytes
-  big-endian each (`lenTable`); the checksum is `%x%x` of the first sum followed by `%016x` of the
+  hasher gets, per source, the length of the name and the number of content bytes copied, as two
+  big-endian `uint64` (`binary.Write` of a `[2]uint64`: 8 bytes each — `lenTable`, `be64`); the checksum is `%x%x` of the first sum followed by `%016x` of the
   second (`fpNow`); `fingerOrder_checksumFeed_ok` pins what goes to which hasher, in which order.
 * `checksumOnError` removes the file when the task has sources; so does `timestampOnError`
   (patched by TS3) with the marker (`onError`); neither consults `checker.dry`, but in dry mode
@@ -151,9 +151,7 @@ theorem fingerOrder_checksumSum_ok : FingerOrder.checksumSum = [("Globs", ""),
   ("io.CopyBuffer", "range ‹0›"),
   ("os.Open", "range ‹0›"),
   ("io.CopyBuffer", "range ‹0›"),
-  ("binary.BigEndian.PutUint64", "range ‹0›"),
-  ("binary.BigEndian.PutUint64", "range ‹0›"),
-  ("(xxh3.New·1).Write", "range ‹0›"),
+  ("binary.Write", "range ‹0›"),
   ("(xxh3.New).Sum128", ""),
   ("def ‹4› := (xxh3.New).Sum128()", "!(‹1› != nil)"),
   ("fmt.Sprintf", ""),
@@ -168,21 +166,20 @@ theorem fingerOrder_checksumName_ok :
     FingerOrder.checksumName = ["rel: ‹0›, ‹1› := filepath.Rel(t.Dir, ‹2›)", "fallback: ‹0› = ‹2›",
       "slash: ‹0› = filepath.ToSlash(‹0›)", "hashed: strings.NewReader(‹0›)"] := by decide
 
-/-- **what is fed to which hasher** (fix F8B; placeholders shared with `checksumName`: ‹0› the name).
-Per source, in this order: the name and then the file ‹7› are copied into ONE hasher ‹4› (`stream`),
-the second copy yielding the byte count ‹6›; the length of the name and that byte count are put, 8
-bytes big-endian each, into the 16-byte array ‹8›, which is written to the SECOND hasher
-(`(xxh3.New·1)`: the second local made by `xxh3.New` — `lenTable`, `be64`); the checksum is `%x%x`
-of the first hasher's 128-bit sum followed by `%016x` of the second's 64-bit sum (`fpNow`).  On a tree
-without the fix the list has three entries (no length record, no second sum): the obligation breaks;
-so it does when the length record is dropped, reordered, or written to the first hasher. -/
+/-- **what is fed to which hasher** (fix F8B; placeholders shared with `checksumName`: ‹0› the name;
+a hasher is printed by its origin also in argument position: `(xxh3.New)` the first local made by
+`xxh3.New`, `(xxh3.New·1)` the second).  Per source, in this order: the name and then the file ‹6›
+are copied into the FIRST hasher (`stream`), the second copy yielding the byte count ‹5›; the length
+of the name and that byte count are written, as two big-endian `uint64` — 8 bytes each —, to the
+SECOND hasher (`lenTable`, `be64`); the checksum is `%x%x` of the first hasher's 128-bit sum followed
+by `%016x` of the second's 64-bit sum (`fpNow`).  On a tree without the fix the list has three entries
+(no length record, no second sum): the obligation breaks; so it does when the length record is
+dropped, reordered, written to the first hasher, or loses one of its two numbers. -/
 theorem fingerOrder_checksumFeed_ok :
-    FingerOrder.checksumFeed = ["feed: _, ‹3› := io.CopyBuffer(‹4›, strings.NewReader(‹0›), ‹5›)",
-      "feed: ‹6›, ‹1› := io.CopyBuffer(‹4›, ‹7›, ‹5›)",
-      "feed: binary.BigEndian.PutUint64(‹8›[:8], uint64(len(‹0›)))",
-      "feed: binary.BigEndian.PutUint64(‹8›[8:], uint64(‹6›))",
-      "feed: _, _ = (xxh3.New·1).Write(‹8›[:])",
-      "sum: fmt.Sprintf(\"%x%x%016x\", ‹9›.Hi, ‹9›.Lo, (xxh3.New·1).Sum64())"] := by decide
+    FingerOrder.checksumFeed = ["feed: _, ‹3› := io.CopyBuffer((xxh3.New), strings.NewReader(‹0›), ‹4›)",
+      "feed: ‹5›, ‹1› := io.CopyBuffer((xxh3.New), ‹6›, ‹4›)",
+      "feed: _ = binary.Write((xxh3.New·1), binary.BigEndian, [2]uint64{uint64(len(‹0›)), uint64(‹5›)})",
+      "sum: fmt.Sprintf(\"%x%x%016x\", ((xxh3.New).Sum128).Hi, ((xxh3.New).Sum128).Lo, (xxh3.New·1).Sum64())"] := by decide
 
 theorem fingerOrder_checksumPath_ok : FingerOrder.checksumPath = [("filepath.Join", ""),
   ("checksumFilename", ""),
